@@ -686,6 +686,13 @@ def temporal_pool(model, defs):
         ("delayed onset two groups", True, ["Delay/1 s", "Onset", p, ["Red"], ["Blue"]]),
         ("duration with onset", True, ["Duration/2 s", "Onset", p]),
         ("onset and offset", True, ["Onset", "Offset", q, ["Red"]]),
+        # Delay next to a top-level-only tag that is NOT a timing tag, and repeated timing tags: the verdict must not depend on which
+        # of the two is written first
+        ("delay with event-context", True, ["Delay/1 s", "Event-context", ["Red"]]),
+        ("event-context with delay", True, ["Event-context", "Delay/1 s", ["Red"]]),
+        ("duration with event-context", True, ["Event-context", "Duration/2 s", ["Blue"]]),
+        ("two delays", True, ["Delay/1 s", "Delay/2 s", "Onset", p]),
+        ("two durations with delay", True, ["Delay/1 s", "Duration/2 s", "Duration/3 s", ["Red"]]),
     ]
     names = model.all_names
     keep = []
